@@ -420,6 +420,45 @@ def _jit_collect(rec, proc):
             rec.failures.append(f)
 
 
+def _sliced_pass(rec, rng, distinct, meshes, tier):
+    """edge tables of a grid obtained with Grid.isel(n_face=...) are the boundary segments of ITS faces (checked against the oracle
+    of the subset's own face table), whatever the source grid had built before"""
+    n = 0
+    for mesh in meshes:
+        nf = mesh["n_face"]
+        if nf < 2:
+            continue
+        sels = {"all_but_last": list(range(nf - 1)), "every_other": list(range(0, nf, 2)),
+                "random_half": sorted(rng.sample(range(nf), max(1, nf // 2)))}
+        if nf >= 4:
+            sels["two_far_apart"] = [0, nf - 1]
+        for sname, keep in sels.items():
+            for prepared in (("nothing", "edges_built") if tier == "thorough" else (("nothing",) if n % 2 else ("edges_built",))):
+                n += 1
+                distinct.add(("slice", mesh["name"], sname, prepared))
+                scenario = f"sliced:Grid.isel(n_face):{prepared}"
+                inp = dict(_desc(mesh["name"], mesh["faces"]), selection=sname, faces_kept=_small(np.array(keep), 40))
+                g = grid_of(mesh)
+                try:
+                    if prepared == "edges_built":
+                        g.edge_node_connectivity, g.face_edge_connectivity
+                    sub = g.isel(n_face=keep)
+                    sfaces = np.array(sub.face_node_connectivity.values)
+                    enc = sub.edge_node_connectivity.values
+                    n_edge = sub.n_edge
+                    fec = sub.face_edge_connectivity.values
+                    npf_tab = sub.n_nodes_per_face.values
+                    enc2 = sub.edge_node_connectivity.values
+                except Exception as e:  # noqa: BLE001
+                    rec.check(False, f"edge tables of a face subset raise {type(e).__name__}", scenario, f"{type(e).__name__}: {e}"[:200], inp)
+                    continue
+                rec.check(np.array_equal(enc, enc2), "edge_node stable across accesses", scenario,
+                          "edge_node_connectivity of the subset changed after face_edge_connectivity was built", inp)
+                check_tables(rec, scenario, mesh["name"] + ":" + sname, sfaces, enc2, n_edge, npf_tab, fec, n_node=sub.n_node,
+                             n_max_face_edges=sub.n_max_face_edges, extra_inp={"selection": sname, "faces_kept": _small(np.array(keep), 40)})
+    return n
+
+
 def _edges(tier, seed, child):
     rng = random.Random(seed * 1000003 + 17)
     rec = _Rec()
@@ -458,13 +497,18 @@ def _edges(tier, seed, child):
     n_sup = _supplied_pass(rec, rng, distinct, cat, ":catalogue", 3 if tier == "quick" else 15)
     n_sup += _supplied_pass(rec, rng, distinct, sup_tabs, ":small_tables", 1 if tier == "quick" else 3)
 
+    sl_m = [m for m in cat if m["n_face"] <= 40][: (60 if tier == "thorough" else 14)]
+    n_sl = _sliced_pass(rec, rng, distinct, sl_m, tier)
+
     if child is not None:
         _jit_collect(rec, child)
         jit = "main pass with numba JIT disabled (njit builders run as Python) + the quick catalogue pass repeated in a child process with JIT enabled"
     else:
         jit = "numba JIT enabled"
 
-    bound = (f"{len(cat)} catalogue meshes (small, renumbered, closed, random; tier {tier}) x {len(ORDERS)} first-access orders + builders, "
+    bound = (f"{n_sl} face subsets (all but one / every other / random half / two far apart) of {len(sl_m)} catalogue meshes via Grid.isel, edge "
+             f"tables of the subset checked against the subset's own faces; "
+             f"{len(cat)} catalogue meshes (small, renumbered, closed, random; tier {tier}) x {len(ORDERS)} first-access orders + builders, "
              f"{len(extra)} meshes with two extra all-padding columns, {len(pairs_)} interleaved grid pairs, and {scope} "
              f"standard-form tables with <=2 faces, <=4 corners, 5 nodes ({nt} tables x 3 access orders + builders); Euler count on the closed "
              f"catalogue meshes; {n_sup} grids built with a source-supplied edge_node_connectivity (the oracle pairs in reversed, face-walk, "
